@@ -116,15 +116,34 @@ std::string hashX(const CrossSection& x, int field) {
   return h.hex();
 }
 
+size_t gStormCancelAt = 0;
+int gStormDelay = 0;
+bool gStorm = false;  // round type: threads mostly evaluate through the shared context while one cancels
+
 void threadProgram(const Shared& s, uint64_t seed, int steps, int role, ThreadLog& log) {
   vh::Rng r(seed);
   try {
     std::vector<Manifold> mine;  // thread-private
     std::vector<CrossSection> mineX;
+    if (gStorm) {
+      // every thread evaluates ITS OWN COPY of the same lazy expressions right
+      // after the barrier (distinct handles => truly concurrent evaluation of
+      // the shared op nodes); the canceller cancels after a short seeded delay
+      for (size_t e = 0; e < s.observedMore.size(); e++) {
+        Manifold c(s.observedMore[e]);
+        if (role == 2 && e == gStormCancelAt) {
+          for (int y = 0; y < gStormDelay; y++) std::this_thread::yield();
+          const_cast<ExecutionContext&>(s.ctx).Cancel();
+        }
+        log.ctxStatus.push_back((int)c.Status());
+        log.ops++;
+      }
+    }
     for (int i = 0; i < steps; i++) {
       log.ops++;
       int op = (int)r.below(role == 2 ? 14 : 12);
       if (r.chance(0.15)) op = 10;  // more evaluations through the shared context
+      if (gStorm) op = (role == 2 && i >= 1 && r.chance(0.35)) ? 12 : (r.chance(0.8) ? 10 : 11);
       switch (op) {
         case 0: case 1: case 2: {  // const query on a shared Manifold (possibly the first, forcing, call)
           int k = (int)r.below(s.m.size()), f = (int)r.below(10);
@@ -204,7 +223,10 @@ void vh_case(vh::Ctx& c) {
   std::vector<ThreadLog> logs(T);
   std::vector<uint64_t> seeds(T);
   for (auto& x : seeds) x = r.next();
-  bool canceller = r.chance(0.6);
+  gStorm = r.chance(0.3);
+  gStormCancelAt = r.below(4);
+  gStormDelay = (int)r.below(40);
+  bool canceller = gStorm || r.chance(0.6);
   std::atomic<int> ready{0};
   std::vector<std::thread> th;
   c.site("threads");
